@@ -99,6 +99,8 @@ func init() {
 		lim := syscall.Rlimit{Cur: workerASLimit + currentVMSize(), Max: workerASLimit + currentVMSize()}
 		_ = syscall.Setrlimit(syscall.RLIMIT_AS, &lim)
 		w := bufio.NewWriter(os.Stdout)
+		fmt.Fprintf(w, "R\n") // ready: case list and base images are loaded; from here on silence means the case in flight hangs
+		w.Flush()
 		for i := lo; i < hi; i++ {
 			fmt.Fprintf(w, "S %d\n", i)
 			w.Flush()
@@ -238,7 +240,14 @@ func runCorrupt(r *ev.Run, target string, sigPrefix string) (*corruptStats, int)
 			}
 			close(doneCh)
 		}()
-		timer := time.NewTimer(timeout)
+		// until the worker has said that it is ready (it first loads the case list - more than half a million cases in the
+		// thorough tiers - possibly while the machine is busy) a generous start-up allowance applies instead of the per-case
+		// no-progress limit
+		startup := 15 * time.Minute
+		if startup < timeout {
+			startup = timeout
+		}
+		timer := time.NewTimer(startup)
 		for {
 			select {
 			case <-progress:
